@@ -243,8 +243,8 @@ def judge_program(lines, slots, res, sig_prefix):
                 # not judged; an assignment still binds what was observed
                 res.count('lines_not_judged')
                 if kind == 'assign-num':
-                    if k in ('err', 'abnormal', 'empty'):
-                        pass
+                    if k in ('err', 'abnormal', 'empty', 'none'):
+                        pass          # (an expression without a value leaves the binding as it is)
                     else:
                         ov = value_of_slot(slot)
                         env[spec[1]] = ('num', bits2f(ov['bits'])) if ov.get('k') == 'number' else ('typed', ov)
@@ -264,7 +264,7 @@ def judge_program(lines, slots, res, sig_prefix):
                 # keep going with what the implementation holds now, so that one defect is one report
                 if kind == 'assign-num' and k == 'number':
                     env[spec[1]] = ('num', mon.fval(slot))
-                elif kind == 'assign-num' and k not in ('err', 'abnormal', 'empty'):
+                elif kind == 'assign-num' and k not in ('err', 'abnormal', 'empty', 'none'):
                     env[spec[1]] = ('typed', value_of_slot(slot))
             continue
         if kind == 'assign-typed':
@@ -274,6 +274,8 @@ def judge_program(lines, slots, res, sig_prefix):
             ov = value_of_slot(slot)
             if ov.get('k') != spec[2]:
                 res.count('typed_literal_other_kind')
+            if ov.get('k') == 'none':
+                continue
             env[spec[1]] = ('num', bits2f(ov['bits'])) if ov.get('k') == 'number' else ('typed', ov)
             res.count('lines_ok')
             continue
@@ -293,12 +295,12 @@ def judge_program(lines, slots, res, sig_prefix):
                 ok = same_value(value_of_slot(slot), want[1])
             if ok:
                 res.count('lines_ok')
-                if kind == 'copy':
-                    env[spec[1]] = want
+                if kind == 'copy' and not (want[0] == 'typed' and want[1].get('k') == 'none'):
+                    env[spec[1]] = want          # (copying a name that holds no value leaves the binding of the target as it is)
             else:
                 out.append((i, 'program:%s:%s' % (kind, 'num' if want[0] == 'num' else want[1].get('k')),
                             'line %d %r should give the value bound to %r (%s), got %s' % (i, text, src, want[1], mon.describe(slot))))
-                if kind == 'copy' and k not in ('err', 'abnormal', 'empty'):
+                if kind == 'copy' and k not in ('err', 'abnormal', 'empty', 'none'):
                     ov = value_of_slot(slot)
                     env[spec[1]] = ('num', bits2f(ov['bits'])) if ov.get('k') == 'number' else ('typed', ov)
             continue
